@@ -570,6 +570,14 @@ async fn drive(sim: &kernel::Sim, case: &Case) -> RunResult {
                     if let Some(core) = crate::verif::kernel::current() {
                         core.count("fault.read_future_cancelled", 1);
                     }
+                    // like the session loops, which look for a complete fragment every time they wake up, whatever woke them
+                    while let Some(data) = reader.pop() {
+                        if let TransportData::Fragment(f) = data {
+                            d2.lock()
+                                .unwrap()
+                                .push((f.info.addr.link.raw_value(), f.data.to_vec()));
+                        }
+                    }
                     continue;
                 }
                 r = reader.read(&mut phys, DecodeLevel::nothing()) => r,
